@@ -27,6 +27,7 @@ RULE = ("layer A (function level, bounded-exhaustive): Server.get_paths for ever
 ASSUMPTIONS = ["lexical confinement (symlinks are outside the statement)",
                "Windows flavour only through pathlib.PureWindowsPath at function level"]
 REQUIRED_MONITORS = ["get_paths_contract", "backend_path_inside_base", "pwd_vs_model"]
+ANCHOR_FUNCTIONS = ['server.py:Server.get_paths']
 EXHAUSTIVE = {"quick": True, "thorough": True}
 
 SEGS = ["a", "..", ".", "", "a\\..", "C:", "..\\x", ".hidden", "a:b"]
